@@ -88,7 +88,7 @@ fn in_process(plan: &Plan) -> Judged {
 			let n = rng.range(3, 12);
 			for step in 0..n {
 				let i = rng.below(3) as usize;
-				match rng.below(16) {
+				match rng.below(18) {
 					0..=4 => {
 						// open attempt
 						if slots[i].is_some() {
@@ -184,6 +184,57 @@ fn in_process(plan: &Plan) -> Judged {
 								holder = None;
 							}
 							j.count("closes", 1);
+						}
+					}
+					16 | 17 => {
+						// a FAILED open (commit log damaged, strict recovery mode) is not a live
+						// instance: once the damage is undone the directory must open again in
+						// this process
+						if holder.is_some() || pending_drop || !zombies.is_empty() {
+							continue;
+						}
+						let wal_dir = dir.join("wal");
+						let seg = std::fs::read_dir(&wal_dir).ok().and_then(|rd| {
+							let mut v: Vec<std::path::PathBuf> = rd.flatten().map(|e| e.path()).filter(|p| p.extension().map(|x| x == "wal").unwrap_or(false)).collect();
+							v.sort();
+							v.into_iter().rev().find(|p| std::fs::metadata(p).map(|m| m.len() > 40).unwrap_or(false))
+						});
+						let seg = match seg {
+							Some(s) => s,
+							None => continue,
+						};
+						let orig = std::fs::read(&seg).unwrap_or_default();
+						let mut bad = orig.clone();
+						let at = 8 + (rng.below((bad.len() - 16) as u64) as usize);
+						bad[at] ^= 0x5a;
+						let _ = std::fs::write(&seg, &bad);
+						let mut strict = opts.clone();
+						strict.absolute_consistency = true;
+						let r = open_store(&strict, &dir);
+						match r {
+							Ok(t) => {
+								// damage not detected by this open (e.g. in padding): not our subject
+								let _ = t.close().await;
+								drop(t);
+							}
+							Err(_) => {
+								j.count("failed_opens", 1);
+							}
+						}
+						let _ = std::fs::write(&seg, &orig);
+						for _ in 0..3 {
+							tokio::task::yield_now().await;
+						}
+						match open_store(&opts, &dir) {
+							Ok(t) => {
+								let _ = t.close().await;
+								drop(t);
+								j.count("opens_after_failed_open", 1);
+							}
+							Err(e) => {
+								fail(&mut j, "not_reopenable", format!("step {}: an open that FAILED (damaged commit log, strict mode) left the directory unopenable in this process although no instance is live: {}", step, e));
+								return;
+							}
 						}
 					}
 					14 | 15 => {
